@@ -6,32 +6,47 @@ HARNESS_PKG = "h_c07"
 COQ_IMPORTS = "From PV Require Import Model.Heights Model.Cursor Model.AckConc Oracle.C06 Oracle.C07.\nOpen Scope N_scope."
 COQ_SHARD = 400
 TECHNIQUE = ("Coq proof (cursor state = pointwise maximum of all advances, permutation invariance, monotonicity of every stored cursor "
-             "under any history of acks, rejection of foreign-topic acks) + differential correspondence of the Gallina model with the real "
-             "Cursor::advance and the real Acked::ack / Acked::cursor over an in-memory SqliteStore")
+             "under any history of acks, rejection of foreign-topic acks; for k CONCURRENT acks through one Acked an LTS with the semaphore permit "
+             "modelled and a proof by induction over the schedule that every interleaving is serialisable) + differential correspondence of the "
+             "Gallina model with the real Cursor::advance and the real Acked::ack / Acked::cursor over in-memory and file-backed SqliteStores, "
+             "concurrent calls replayed step by step through cfg-gated schedule points")
 LEVEL_TEXT = ("Theorems C07_advance_is_max / C07_advance_perm / C07_advance_monotone (any cursor, any sequence of advances) and C07_ack_monotone / "
               "C07_ack_all_monotone / C07_ack_foreign_rejected / C07_ack_reaches / C07_ack_all_is_max / C07_ack_only_own_topic (any cursor store, any "
               "history of acks through any set of Acked instances with any names and topics) are proved in Coq without bounds; "
-              "C07_oracle_adv_sound shows the advance oracle implies the max equation for every (author, log). The model is tied to "
+              "C07_oracle_adv_sound shows the advance oracle implies the max equation for every (author, log). "
+              "Concurrent calls on ONE Acked (and its clones) are modelled as a transition system (Model/AckConc.v: acquire the permit - FIFO queue -, "
+              "topic check, read, advance, begin, write, release, in the order of the code) and C07_concurrent_acks_max / C07_concurrent_acks_as_sequential / "
+              "C07_concurrent_acks_monotone hold for EVERY schedule and any number of calls: when all calls have returned the stored cursor is the pointwise "
+              "maximum of the initial cursor and the accepted acks (= what the calls give one after the other) and no stored entry ever decreases in between; "
+              "C07_concurrent_acks_unserialised_read_refuted / C07_concurrent_acks_early_release_refuted show by witness that the two re-orderings 'read before "
+              "acquire' and 'release before write' lose acknowledgements in the same model (regression lemmas, not findings). The model is tied to "
               "p2panda-core/src/cursor.rs and p2panda/src/streams/acked.rs on every run: real Cursor::advance sequences and real Acked::ack calls "
               "(several Acked instances over one SqliteStore, cursor read back through Acked::cursor and CursorStore::get_cursor after every call) "
-              "are compared with the model step by step; the oracle is evaluated on the implementation's observations. "
-              "A few cases per run go through a real Node: two topic streams, published operations, the public StreamSubscription::ack. "
-              "Partial: one ack is modelled as atomic (what the instance's one-permit semaphore provides).")
+              "are compared with the model step by step; concurrent calls (join_all and spawned tasks, current-thread and multi-thread runtime, in-memory and "
+              "file-backed default-pool store) are held at schedule points inside Acked::cursor / Acked::ack / SqliteStore::begin and released one label at a time, "
+              "the persisted cursor being read after every label; the oracle is evaluated on the implementation's observations. "
+              "A few cases per run go through a real Node: two topic streams, published operations, the public StreamSubscription::ack.")
 LEVEL_NOTE = ("Trusted: Coq kernel + vm_compute; hand-written model; SQLite upsert/select of cursors_v1 and the CBOR round trip of a cursor "
-              "(exercised by every ack case, not proved); BLAKE3 log ids of distinct topics distinct; harness/python glue. "
+              "(exercised by every ack case, not proved); tokio's Semaphore (one permit, FIFO hand-over, release on drop: modelled, exercised by the scheduled cases); "
+              "BLAKE3 log ids of distinct topics distinct; harness/python glue. "
               "Two separately constructed Acked values with the same cursor name do not share a semaphore: the lost-update interleaving is "
               "exhibited in the model (Proofs/Cursor.v two_instances_can_regress) and lies outside the property's quantifier.")
-ASSUMPTIONS = ["each Acked::ack call is atomic with respect to other calls on the same cursor name (one Acked, and its clones, per cursor name: the semaphore in acked.rs)",
+ASSUMPTIONS = ["one Acked (and its clones) per cursor name: calls through separately constructed instances with the same name are not serialised by anything",
+               "tokio::sync::Semaphore: one permit, handed over in FIFO order, released when the guard is dropped; a SELECT through the pool sees exactly the committed upserts",
                "LogId::from_topic is injective on the topics used (BLAKE3)",
                "the cursors_v1 table behaves as a finite map keyed by name and decode_cbor(encode_cbor(cursor)) = cursor"]
-TRUSTED = ["modelled not verified: SQLite cursor table, CBOR cursor encoding, tokio Semaphore (atomicity of one ack), BTreeMap"]
+TRUSTED = ["modelled not verified: SQLite cursor table, CBOR cursor encoding, tokio Semaphore, BTreeMap"]
 RULE = ("node = random histories on a real Node (explicit ack policy, two topic streams, 1-4 published operations each, 3-8 calls of "
         "StreamSubscription::ack incl. cross-topic ones; 6 quick / 40 thorough); quick: adv = all advance sequences of length <= 3 over 2 logs x heights {0,1,2} (259) and 400 random ones of length 4, all 120 orders of 3 random 5-advance multisets over "
         "3 authors x 3 logs, 200 random sequences (<= 40 advances, initial state, heights up to u32::MAX); ack = all sequences of length <= 2 over "
         "2 default-named topic streams x 2 authors x 2 topics x seq {0,1,2} (601) and 300 random histories (1-4 instances with default or custom, "
-        "possibly shared names, 3 topics of which one is tracked by nobody, <= 14 acks). thorough: adv length <= 5 (9331) + 20 multisets x 120 orders "
-        "+ 2000 random; ack length <= 2 as in quick + all 1728 length-3 sequences with one author + 3000 random (<= 40 acks). "
-        "non-trivial = adv: some advance was ignored (lower than the current height); ack: both an accepted and a rejected ack occur")
+        "possibly shared names, 3 topics of which one is tracked by nobody, <= 14 acks); conc = 24 of the 252 interleavings of two calls (all 252 in thorough), "
+        "64 random label lists for 2-5 calls (every call gets >= 5 labels + 30% labels that hit queued or returned calls; own- and foreign-topic headers, half of them one log "
+        "with descending heights) and 32 free-running bursts of 2-8 calls, cycling through {current-thread, multi-thread} x {join_all, spawned tasks} x {in-memory, file-backed default pool}. "
+        "thorough: adv length <= 5 (9331) + 20 multisets x 120 orders "
+        "+ 2000 random; ack length <= 2 as in quick + all 1728 length-3 sequences with one author + 3000 random (<= 40 acks); conc 252 + 800 + 400. "
+        "non-trivial = adv: some advance was ignored (lower than the current height); ack: both an accepted and a rejected ack occur; conc: some call was "
+        "really queued on the semaphore behind another one (scheduled) / at least two calls (free running)")
 
 
 # ---------------------------------------------------------------- generators
